@@ -201,6 +201,21 @@ def main():
                 onp.all(tensor_jacobian_product(lambda p_, z, w: z * z * w, 1)(p, a, b, vv_) == 2.0 * a * b * vv_),
                 onp.all(_ggn_(lambda p_, z: z * p_, lambda y: anp.sum(y * y), 1)(p, a)(vv_) == 2.0 * p * p * vv_),
             ]
+            # selection by name on bound methods, class methods and static methods (the bound parameter is not an argument)
+            class _M:
+                def meth(self, a_, b_):
+                    return anp.sum(a_ * a_ * b_) * p
+
+                @classmethod
+                def cmeth(cls, a_, b_):
+                    return anp.sum(a_ * a_ * b_) * p
+
+                @staticmethod
+                def smeth(a_, b_):
+                    return anp.sum(a_ * a_ * b_) * p
+            checks += [onp.all(grad_named(_M().meth, "a_")(a, b) == 2.0 * a * b * p), onp.all(grad_named(_M().meth, "b_")(a, b) == a * a * p),
+                       onp.all(grad_named(_M.cmeth, "b_")(a, b) == a * a * p), onp.all(grad_named(_M.smeth, "a_")(a, b) == 2.0 * a * b * p),
+                       onp.all(grad_named(_M().smeth, "b_")(a, b) == a * a * p)]
             # one operator OBJECT applied at several points / extra arguments: whatever an earlier application returned
             # keeps belonging to ITS arguments, also when it is evaluated after the later applications
             op_j, op_v = make_jvp(fun, 1), make_vjp(fun, 3)
